@@ -1,0 +1,195 @@
+//go:build verif
+
+// Verification hooks. This file only exposes internals to the checks in /verif;
+// it is compiled only with -tags verif and changes no behaviour.
+
+package url
+
+import "github.com/bits-and-blooms/bitset"
+
+// VerifUrlDump is every field of a Url as it is stored.
+type VerifUrlDump struct {
+	Scheme, Username, Password  string
+	Host, Port, Query, Fragment *string
+	DecodedPort                 int
+	Segs                        []string
+	Opaque                      bool
+	HasSearchParams             bool
+	SearchParamsUrl             *Url
+	SearchParams                [][2]string
+	ValidationErrors            []error
+}
+
+func VerifDump(u *Url) VerifUrlDump {
+	d := VerifUrlDump{
+		Scheme: u.scheme, Username: u.username, Password: u.password,
+		Host: u.host, Port: u.port, Query: u.query, Fragment: u.fragment,
+		DecodedPort: u.decodedPort, ValidationErrors: u.validationErrors,
+	}
+	if u.path != nil {
+		d.Segs = u.path.p
+		d.Opaque = u.path.opaque
+	}
+	if u.searchParams != nil {
+		d.HasSearchParams = true
+		d.SearchParamsUrl = u.searchParams.url
+		for _, nvp := range u.searchParams.params {
+			d.SearchParams = append(d.SearchParams, [2]string{nvp.Name, nvp.Value})
+		}
+	}
+	return d
+}
+
+// VerifSearchParamsDump returns the pairs and the back pointer of a SearchParams handle.
+func VerifSearchParamsDump(s *SearchParams) (*Url, [][2]string) {
+	var r [][2]string
+	for _, nvp := range s.params {
+		r = append(r, [2]string{nvp.Name, nvp.Value})
+	}
+	return s.url, r
+}
+
+// VerifRawIdna is the IDNA oracle: idnaProfile.ToASCII.
+func VerifRawIdna(s string) (string, error) {
+	return idnaProfile.ToASCII(s)
+}
+
+// VerifOpts is a copy of parserOptions.
+type VerifOpts struct {
+	ReportValidationErrors              bool
+	FailOnValidationError               bool
+	LaxHostParsing                      bool
+	CollapseConsecutiveSlashes          bool
+	AcceptInvalidCodepoints             bool
+	PreParseHostFunc                    func(url *Url, host string) string
+	PostParseHostFunc                   func(url *Url, host string) string
+	PercentEncodeSinglePercentSign      bool
+	AllowSettingPathForNonBaseUrl       bool
+	SkipWindowsDriveLetterNormalization bool
+	SpecialSchemes                      map[string]string
+	SkipTrailingSlashNormalization      bool
+	EncodingOverride                    string
+	PathPercentEncodeSet                *PercentEncodeSet
+	SpecialQueryPercentEncodeSet        *PercentEncodeSet
+	QueryPercentEncodeSet               *PercentEncodeSet
+	SpecialFragmentPercentEncodeSet     *PercentEncodeSet
+	FragmentPercentEncodeSet            *PercentEncodeSet
+	SkipEqualsForEmptySearchParamsValue bool
+}
+
+// VerifOptions returns the options of a Parser created by NewParser.
+func VerifOptions(p Parser) (VerifOpts, bool) {
+	pp, ok := p.(*parser)
+	if !ok {
+		return VerifOpts{}, false
+	}
+	o := pp.opts
+	v := VerifOpts{
+		ReportValidationErrors:              o.reportValidationErrors,
+		FailOnValidationError:               o.failOnValidationError,
+		LaxHostParsing:                      o.laxHostParsing,
+		CollapseConsecutiveSlashes:          o.collapseConsecutiveSlashes,
+		AcceptInvalidCodepoints:             o.acceptInvalidCodepoints,
+		PreParseHostFunc:                    o.preParseHostFunc,
+		PostParseHostFunc:                   o.postParseHostFunc,
+		PercentEncodeSinglePercentSign:      o.percentEncodeSinglePercentSign,
+		AllowSettingPathForNonBaseUrl:       o.allowSettingPathForNonBaseUrl,
+		SkipWindowsDriveLetterNormalization: o.skipWindowsDriveLetterNormalization,
+		SpecialSchemes:                      o.specialSchemes,
+		SkipTrailingSlashNormalization:      o.skipTrailingSlashNormalization,
+		PathPercentEncodeSet:                o.pathPercentEncodeSet,
+		SpecialQueryPercentEncodeSet:        o.specialQueryPercentEncodeSet,
+		QueryPercentEncodeSet:               o.queryPercentEncodeSet,
+		SpecialFragmentPercentEncodeSet:     o.specialFragmentPercentEncodeSet,
+		FragmentPercentEncodeSet:            o.fragmentPercentEncodeSet,
+		SkipEqualsForEmptySearchParamsValue: o.skipEqualsForEmptySearchParamsValue,
+	}
+	if o.encodingOverride != nil {
+		v.EncodingOverride = o.encodingOverride.String()
+	}
+	return v, true
+}
+
+// VerifParserOf returns the parser a Url was created by.
+func VerifParserOf(u *Url) Parser {
+	return u.parser
+}
+
+// VerifSetDump returns allBelow and the bit set of a PercentEncodeSet.
+func VerifSetDump(p *PercentEncodeSet) (int32, *bitset.BitSet) {
+	return p.allBelow, p.bs
+}
+
+func verifParser(p Parser) *parser {
+	if pp, ok := p.(*parser); ok {
+		return pp
+	}
+	return defaultParser.(*parser)
+}
+
+func VerifParseHost(p Parser, input string, isNotSpecial bool) (string, error) {
+	pp := verifParser(p)
+	return pp.parseHost(&Url{inputUrl: input, path: &path{}, parser: pp}, pp, input, isNotSpecial)
+}
+
+func VerifEndsInANumber(s string) bool {
+	pp := verifParser(nil)
+	return pp.endsInANumber(&Url{parser: pp}, s)
+}
+
+func VerifParseIPv4(s string) (string, error) {
+	pp := verifParser(nil)
+	return pp.parseIPv4(&Url{parser: pp}, s)
+}
+
+func VerifParseIPv6(s string) (string, error) {
+	pp := verifParser(nil)
+	return pp.parseIPv6(&Url{parser: pp}, newInputString(s))
+}
+
+func VerifTrim(s string) (string, bool) {
+	return trim(s, C0OrSpacePercentEncodeSet)
+}
+
+func VerifRemove(s string) (string, bool) {
+	return remove(s, ASCIITabOrNewline)
+}
+
+func VerifDecodePercentEncoded(p Parser, s string) string {
+	return verifParser(p).DecodePercentEncoded(s)
+}
+
+func VerifSearchParamsInit(p Parser, q string) [][2]string {
+	pp := verifParser(p)
+	sp := &SearchParams{url: &Url{parser: pp}}
+	sp.init(q)
+	var r [][2]string
+	for _, nvp := range sp.params {
+		r = append(r, [2]string{nvp.Name, nvp.Value})
+	}
+	return r
+}
+
+func VerifIsURLCodePoint(r rune) bool {
+	return isURLCodePoint(r)
+}
+
+// VerifBitsets returns the package level bit sets by name.
+func VerifBitsets() map[string]*bitset.BitSet {
+	return map[string]*bitset.BitSet{
+		"tabnl":           ASCIITabOrNewline,
+		"alpha":           ASCIIAlpha,
+		"digit":           ASCIIDigit,
+		"hex":             ASCIIHexDigit,
+		"alnum":           ASCIIAlphanumeric,
+		"c0control":       C0control,
+		"c0controlsp":     C0controlOrSpace,
+		"forbiddenhost":   ForbiddenHostCodePoint,
+		"forbiddendomain": ForbiddenDomainCodePoint,
+	}
+}
+
+// VerifDefaultSpecialSchemes returns the package level special scheme table.
+func VerifDefaultSpecialSchemes() map[string]string {
+	return defaultSpecialSchemes
+}
